@@ -417,6 +417,9 @@ class Exec:
             d = apply_spec(self, self.ctx.registry.specs["distinct"], [VSeq(e, S.Str, "list"), VNum(z3.Length(e), "int")], st)
             st.facts.append(d.term)
         st.facts.append(S.lam(lambda x: z3.Contains(e, z3.Unit(x)), e) == t)
+        if self.ctx.registry is not None and "elems" in self.ctx.registry.specs:
+            el = apply_spec(self, self.ctx.registry.specs["elems"], [VSeq(e, S.Str, "list"), VNum(z3.Length(e), "int")], st)
+            st.facts.append(el.term == t)  # the same statement through the recursive spec function (usable by induction lemmas)
         return VSeq(e, S.Str, "list"), e
 
     # ---------------------------------------------------------------- expressions
